@@ -557,6 +557,103 @@ func c06(c *core.Ctx) {
 		c06Backward(k, gen.Msg(k.R, gen.Opt{Protected: true, AllowEmpty: true, MaxPayloads: 4}), k.Index%36)
 	})
 	c.Family("bwd-empty", 36, func(k *core.Case) { c06Backward(k, gen.Header(k.R), k.Index%36) })
+	// two DIFFERENT genuine peer messages of equal size whose IV|ciphertext (or ciphertext, or whole SK body up to the
+	// checksum) agree in a weak fingerprint (CRC-32 variants, CRC-64, XOR): the peer holds the key, so it can choose
+	// the ciphertext blocks that lie in its (non-minimal, arbitrary-content) padding and thereby steer the checksum.
+	// Presented one directly after the other to ONE receiver object: each must decode to its own payloads.
+	c.Family("bwd-colliding-ciphertexts", c.N(36*len(core.Fingerprints), 36*len(core.Fingerprints)*40), func(k *core.Case) {
+		s, init, pre := cell(k.Index % 36)
+		fp := core.Fingerprints[k.Index/36%len(core.Fingerprints)]
+		raw := libsa.RandomRaw(k.R, s)
+		dir := raw.Dir(init)
+		mk := func(plen int) (*abs.Msg, uint8, []byte, []byte, bool) {
+			for try := 0; try < 50; try++ {
+				m := gen.Msg(k.R, gen.Opt{Protected: true, MaxPayloads: 2})
+				inner, first, err := ref.EncodeChain(m.Payloads, nil)
+				if err != nil || len(inner) > 200 {
+					continue
+				}
+				if plen == 0 {
+					plen = (len(inner)/16 + 6) * 16 // at least four blocks of padding
+				}
+				padn := plen - len(inner) - 1
+				if padn < 64 || padn > 255 {
+					continue
+				}
+				pt := append(append(append([]byte{}, inner...), k.R.Bytes(padn)...), byte(padn))
+				iv := k.R.Bytes(16)
+				ct, err := ref.CBCEncrypt(dir.Ke, iv, pt)
+				if err != nil {
+					continue
+				}
+				return m, first, iv, ct, true
+			}
+			return nil, 0, nil, nil, false
+		}
+		ma, fa, iva, cta, ok := mk(0)
+		if !ok {
+			return
+		}
+		mb, fb, ivb, ctb, ok := mk(len(cta))
+		if !ok {
+			return
+		}
+		region := k.Index / (36 * len(core.Fingerprints)) % 3
+		reg := func(iv, ct []byte) []byte {
+			switch region {
+			case 0:
+				return append(append([]byte{}, iv...), ct...)
+			case 1:
+				return ct
+			default:
+				return append(append([]byte{fa, 0, 0, 0}, iv...), ct...)
+			}
+		}
+		// patch inside block n-3 of B's ciphertext: plaintext blocks n-3 and n-2 change, both are padding
+		pos := len(ctb) - 48 + k.R.Intn(16-fp.Bytes+1)
+		target := fp.F(reg(iva, cta))
+		wrapped := core.Fingerprint{Name: fp.Name, Bits: fp.Bits, Bytes: fp.Bytes, F: func(b []byte) uint64 { return fp.F(reg(ivb, b)) }}
+		if !core.PatchToCollide(ctb, pos, wrapped, target) {
+			k.Count("no_collision_constructed", 1)
+			return
+		}
+		wa := ref.AssembleProtected(ma, fa, iva, cta, s, dir.Ka)
+		wb := ref.AssembleProtected(mb, fb, ivb, ctb, s, dir.Ka)
+		if um, _, _, err := ref.Unprotect(wb, s, dir); err != nil || !abs.Equal(mb, um) {
+			k.Count("constructed_message_not_genuine(harness)", 1)
+			return
+		}
+		key, kerr := libsa.NewKey(raw)
+		if kerr != nil {
+			return
+		}
+		w := M{"suite": s.Name(), "keys": raw.JSON(), "fingerprint": fp.Name, "region": region, "first": core.Hex(wa), "second": core.Hex(wb)}
+		for round, x := range []struct {
+			wire []byte
+			m    *abs.Msg
+		}{{wa, ma}, {wb, mb}, {wa, ma}} {
+			k.Eval(1)
+			d, err, p := libUnprotectWith(x.wire, nil, key, !init)
+			if pre {
+				d, err, p = libUnprotect(x.wire, true, key, !init)
+			}
+			if p != nil {
+				k.Violate("panic", "colliding: "+p.Sig(), "panic", panicData(p, w))
+				return
+			}
+			if err != nil || !abs.Equal(x.m, d) {
+				k.Violate("mismatch", "genuine-message-with-colliding-ciphertext-fingerprint-decoded-wrongly/"+fp.Name, fmt.Sprintf("presentation %d: err=%v %s", round+1, err, func() string {
+					if d != nil {
+						return abs.Diff(x.m, d)
+					}
+					return ""
+				}()), w)
+				return
+			}
+		}
+		k.Count("colliding_ciphertext_pairs_presented", 1)
+		k.Distinct(fmt.Sprintf("collide|%s|%d|%s", fp.Name, region, s.Name()))
+	})
 	c.Family("fwd-searched-crypto-values", c.N(18*nSpecial, 18*nSpecial*200), func(k *core.Case) {
 		ci := k.Index % 18 * 2
 		s, init, _ := cell(ci)
@@ -606,7 +703,7 @@ func c06(c *core.Ctx) {
 		k.Distinct(fmt.Sprintf("limit|ok|%s|%d", s.Name(), inner/16))
 	})
 	freshFamily(c, "C06", "fresh-process", c.N(3, 60))
-	c.Require("fresh_process_cases_ok", "searched_crypto_value_found", "payload_list_sent_in_three_messages", "at_limit_refused_with_error", "at_limit_protected_ok", "msg_object_completed-after-plain-encode", "msg_object_header-parsed-from-a-protected-datagram", "msg_object_object-decoded-from-another-datagram", "msg_object_NewMessage")
+	c.Require("colliding_ciphertext_pairs_presented", "fresh_process_cases_ok", "searched_crypto_value_found", "payload_list_sent_in_three_messages", "at_limit_refused_with_error", "at_limit_protected_ok", "msg_object_completed-after-plain-encode", "msg_object_header-parsed-from-a-protected-datagram", "msg_object_object-decoded-from-another-datagram", "msg_object_NewMessage")
 }
 
 var _ = message.TypeSK
